@@ -1,4 +1,8 @@
-use crate::{builtin::BuiltinRuntime, syntax::DynamicsProgram, *};
+use crate::{
+    builtin::BuiltinRuntime,
+    syntax::{DynamicsProgram, ProductPosition},
+    *,
+};
 use std::{collections::HashSet, rc::Rc, sync::Arc};
 use thiserror::Error;
 use zydeco_statics::{
@@ -274,12 +278,32 @@ impl Link for ss::ValueId {
             | Value::Proj(Proj(head, field)) => {
                 let head = head.link(statics);
                 return field.target.products.iter().fold(head, |head, projection| {
-                    Rc::new(Proj(head, projection.position).into())
+                    let position = ProductPosition {
+                        index: projection.position,
+                        last: projection.position + 1 == ProductArity::of(statics, projection.product),
+                    };
+                    Rc::new(Proj(head, position).into())
                 });
             }
             | Value::Lit(lit) => lit.to_owned().into(),
         };
         Rc::new(value)
+    }
+}
+
+/// Number of components of a product type, counted like the checker does when
+/// it assigns projection positions: along the right spine of `Prod`.
+struct ProductArity;
+
+impl ProductArity {
+    fn of(statics: &StaticsArena, product: ss::TypeId) -> usize {
+        match statics.normalized_at(product) {
+            | Some(ss::Type::Prod(ss::Prod(_, tail))) => match statics.normalized_at(*tail) {
+                | Some(ss::Type::Prod(_)) => 1 + Self::of(statics, *tail),
+                | _ => 2,
+            },
+            | _ => 0,
+        }
     }
 }
 
